@@ -22,6 +22,12 @@ THEOREMS = ["PyOak.C07." + t for t in [
 THEOREMS += ["PyOak.GenBridge.matchElem_eq_gen"]
 THEOREMS += ["PyOak.C07P." + t for t in ["xlex_render", "parseSteps_render", "xwalk_spec", "digits_significant",
                                           "parseXPath_render", "parseXPath_render_rel"]]
+# Props/C07Agree.lean (after AUDIT.md): findall <-> match on the entry points, "each once" on nodes, find,
+# the step test spelled out, the declarative (segment) reading of sat, text -> meaning composed
+THEOREMS += ["PyOak.C07." + t for t in [
+    "findall_iff_match", "xmatch_total", "xmatch_foreign", "findall_nodup_uid", "findall_nodup_nodes", "findall_subset",
+    "findall_exactly_matches", "xfind_first", "xfind_none_iff", "xfind_matches", "matchElem_iff", "matchElem_root",
+    "sat_iff_segments", "sat_absolute_first", "text_findall_iff_match", "text_match_meaning", "digitsVal_zero_padded"]]
 RULE = ("grammar-derived xpaths (1-4 steps, every anywhere/field/index/class combination, indices 0-13 and "
         "multi-digit/zero-padded, empty index, field names child/root/items, subclass hierarchies, random "
         "whitespace between tokens) x seeded zoo trees without repeated objects (tuples up to length 14; 35% contain whole duplicated subtrees, i.e. pairwise == twins under == parents); every "
